@@ -16,7 +16,7 @@ RULE = ('every validator set of <= 3 members with weights in 1..3 (quick: a seed
         '(thorough 4, sampled) over {valid_i, invalid_i, other-block_i, foreign, foreign-invalid}; plus weight patterns hitting exactly 2/3 '
         'and random larger sets (up to 12 validators); distinct = distinct (weights, item sequence)')
 ASSUMPTIONS = ['signature items are labelled by construction with PyNaCl (valid = signed by that validator over this block id; invalid = one '
-               'flipped bit; other = signed over a different block id; long = a signature over a longer message ending in this block\'s payload, followed by the extra bytes; short / padded = 63 / 65 bytes; foreign = key outside the set; alias = a valid signature of a member listed under the ADNL address of that member instead of its node id: an unknown signer); the signature list is passed as list / tuple / one-shot iterator / generator', 'validator descriptors are built directly or taken from ValidatorDescr.deserialize (weights up to 2^64 - 1)',
+               'flipped bit; other = signed over a different block id; long = a signature over a longer message ending in this block\'s payload, followed by the extra bytes; short / padded = 63 / 65 bytes; foreign = key outside the set; alias = a valid signature of a member listed under the ADNL address of that member instead of its node id: an unknown signer); the signature list and the validator set are passed as list / tuple / one-shot iterator / generator / dict view', 'validator descriptors are built directly or taken from ValidatorDescr.deserialize (weights up to 2^64 - 1)',
                'a set in which a signer repeats but whose distinct signers already exceed 2/3 may be accepted or rejected (the property allows '
                'either reading of "counted more than once")', 'weights below 2^20 use TLC integers; 64-bit weights are limb vectors compared by TonNat (lemmas in MC_Nat)']
 MAGIC_ID = b'\xc6\xb4\x13\x48'
@@ -108,7 +108,10 @@ class World:
             # the signature list in any iterable form (list, tuple, one-shot iterator, generator)
             form = self.rng.choice(['list', 'list', 'tuple', 'iter', 'gen'])
             arg = its if form == 'list' else tuple(its) if form == 'tuple' else iter(its) if form == 'iter' else (x for x in its)
-            check_block_signatures(nodes, arg, self.blk)
+            nform = self.rng.choice(['list', 'list', 'tuple', 'iter', 'gen', 'values'])
+            narg = nodes if nform == 'list' else tuple(nodes) if nform == 'tuple' else iter(nodes) if nform == 'iter' else \
+                (x for x in nodes) if nform == 'gen' else dict(enumerate(nodes)).values()
+            check_block_signatures(narg, arg, self.blk)
             rec['out'] = {'ok': 1}
         except Exception as e:
             rec['out'] = {'err': type(e).__name__}
